@@ -212,9 +212,15 @@ def run_case(ck, desc):
         pp = np.asarray(out["pseudopressure"], dtype=float)
         at_f = float(np.interp(p_f, p, pp))
         at_i = float(np.interp(p_i, p, pp))
-        if not ck.margin("rescale: p_f -> 0", abs(at_f), 1e-12):
-            ck.violation("rescale: p_f -> 0", {"value": at_f, "p_f": p_f}, desc)
-        if not ck.margin("rescale: p_i -> 1", abs(at_i - 1), 1e-12):
+        # (m(p) - m(p_f)) / (m(p_i) - m(p_f)) cancels: its rounding error is eps x the SIZE of the raw
+        # pseudopressures over their difference - large when the table's datum is far from two pressures
+        # that sit one row apart (sweep #9, seed 72: 2.4e-12 with |m| ~ 1e7 and a difference of ~ 1e3)
+        raw_ = np.asarray(tab["pseudopressure"], dtype=float)
+        m_f_raw, m_i_raw = float(np.interp(p_f, p, raw_)), float(np.interp(p_i, p, raw_))
+        tol_r = 1e-12 + 16 * np.finfo(float).eps * max(abs(m_f_raw), abs(m_i_raw)) / max(abs(m_i_raw - m_f_raw), 1e-300)
+        if not ck.margin("rescale: p_f -> 0", abs(at_f), tol_r):
+            ck.violation("rescale: p_f -> 0", {"value": at_f, "p_f": p_f, "tolerance": tol_r}, desc)
+        if not ck.margin("rescale: p_i -> 1", abs(at_i - 1), tol_r):
             ck.violation("rescale: p_i -> 1", {"value": at_i, "p_i": p_i}, desc)
         if np.any(np.diff(pp) * np.sign(p_i - p_f) <= 0):
             ck.violation("rescale: monotone", {"min_step": float(np.min(np.diff(pp) * np.sign(p_i - p_f)))}, desc)
